@@ -24,6 +24,15 @@ use std::collections::{hash_map::Entry, BTreeSet, HashSet};
 use tokio::sync::oneshot;
 use xor_name::XorName;
 
+/// Verification hook (feature `verif-hooks`): lets a harness feed kad events to the real handler.
+#[cfg(feature = "verif-hooks")]
+#[allow(missing_docs)]
+impl SwarmDriver {
+    pub fn verif_handle_kad_event(&mut self, kad_event: libp2p::kad::Event) -> Result<()> {
+        self.handle_kad_event(kad_event)
+    }
+}
+
 impl SwarmDriver {
     pub(super) fn handle_kad_event(&mut self, kad_event: libp2p::kad::Event) -> Result<()> {
         let start = Instant::now();
